@@ -44,6 +44,7 @@ type DEv struct {
 	X2   int    `json:"x2"`
 	Szok int    `json:"szok"`
 	Errc int    `json:"errc"`
+	Stab int    `json:"stab"` // results returned by earlier calls are still intact after this call
 	// extensions
 	Has       []int  `json:"has"`
 	Rthas     []int  `json:"rthas"`
@@ -96,6 +97,28 @@ func (e *DEv) norm() {
 	if len(e.Note) > 300 {
 		e.Note = e.Note[:300]
 	}
+}
+
+// retained results of byte-returning calls: what a caller still holds must not change when the API is used again
+type retained struct{ live, snap []byte }
+
+var retainedOut []retained
+
+// retain reports whether every result handed out earlier is still intact, then keeps out as well.
+func retain(out []byte) int {
+	ok := 1
+	for _, r := range retainedOut {
+		if !bytes.Equal(r.live, r.snap) {
+			ok = 0
+		}
+	}
+	if len(out) > 0 {
+		retainedOut = append(retainedOut, retained{out, append([]byte{}, out...)})
+		if len(retainedOut) > 6 {
+			retainedOut = retainedOut[1:]
+		}
+	}
+	return ok
 }
 
 func (d *Driver) emitD(e *DEv) {
@@ -270,6 +293,7 @@ func (d *Driver) dispatchOne(fl, key string, mk func() interface{}, mkOther func
 	var err error
 	guard(&e.St, &e.Note, func() {
 		a, err = csproto.Marshal(m)
+		e.Stab = retain(a)
 		if err == nil {
 			fresh := zero()
 			if rt.unmarshal(a, fresh) == nil && rt.equal(m, fresh) {
@@ -353,6 +377,7 @@ func (d *Driver) dispatchOne(fl, key string, mk func() interface{}, mkOther func
 	guard(&e.St, &e.Note, func() {
 		var b []byte
 		b, err = csproto.GrpcCodec{}.Marshal(mk())
+		e.Stab = retain(b)
 		fresh := zero()
 		e.Same = b2i(err == nil && rt.unmarshal(b, fresh) == nil && rt.equal(mk(), fresh))
 	})
@@ -984,6 +1009,7 @@ func (d *Driver) FamJSON(perType int) {
 						e.St = "ok"
 					}
 				}
+				e.Stab = retain(out)
 				if e.St == "ok" {
 					e.Raw = string(out)
 					if len(e.Raw) > 300 {
@@ -1116,6 +1142,7 @@ func (d *Driver) FamJSON(perType int) {
 					e.St = "ok"
 				}
 			}
+			e.Stab = retain(out)
 			if e.St == "ok" {
 				e.Raw = string(out)
 				if len(e.Raw) > 300 {
